@@ -31,6 +31,16 @@ Impossible(c, S) ==
   \/ (HasCursor(c) /\ ~CursorFinal(c) /\ c.rans = "err")
   \/ (c.prod /\ ~c.libok /\ c.stop = 0)          \* production, unbounded, no final block known
 
+\* the segmenters derived from the plan: the scheduler hands out jobs by iterating over the back-process segmenter, which must
+\* span every segment of the stores to build and of the outputs to write (and these two are the segments of their ranges)
+SegmentersOK(c, r) ==
+  /\ (r.build # <<>>) => r.storesSeg = <<r.build[1] \div c.seg, (r.build[2] - 1) \div c.seg>>
+  /\ (r.write # <<>>) => r.writeSeg = <<r.write[1] \div c.seg, (r.write[2] - 1) \div c.seg>>
+  /\ (r.build # <<>> \/ r.write # <<>>) =>
+        /\ Len(r.backSeg) = 2
+        /\ (r.build # <<>> => r.backSeg[1] <= r.storesSeg[1] /\ r.backSeg[2] >= r.storesSeg[2])
+        /\ (r.write # <<>> => r.backSeg[1] <= r.writeSeg[1] /\ r.backSeg[2] >= r.writeSeg[2])
+
 Fails(r) ==
   LET c == r.cfg IN
   IF r.panic # "" THEN <<"C12:panic">>
@@ -48,6 +58,7 @@ Fails(r) ==
   \o F(LinearOK(c, r), "C12:linear_range_and_gate")
   \o F(CoverOK(c, r), "C12:gap_or_overlap")
   \o F(WholeSegmentsOK(c, r), "C12:handoff_not_segment_boundary_with_backfill")
+  \o F(SegmentersOK(c, r), "C12:backprocess_segmenter_misses_a_segment_to_process")
 
 DriftOf(r) ==
   LET c == r.cfg IN
